@@ -3,12 +3,28 @@ import os, pty, sys, termios, gc
 
 
 class Stream:
-    def __init__(self, fd, fail_at=None, exc=KeyboardInterrupt):
+    """buffered=False: write() delivers at once (an interrupted write delivers half of its data);
+    buffered=True: write() only stores, flush() delivers (an interrupted flush delivers half of what was stored)"""
+    def __init__(self, fd, fail_at=None, exc=KeyboardInterrupt, buffered=False):
         self.fd, self.fail_at, self.exc, self.ops, self.data, self.log = fd, fail_at, exc, 0, [], []
+        self.buffered, self.pending = buffered, ""
     def _op(self, data=None):
         self.ops += 1
         self.log.append(data)
-        if self.fail_at is not None and self.ops == self.fail_at:
+        fail = self.fail_at is not None and self.ops == self.fail_at
+        if self.buffered:
+            if data is not None:
+                self.pending += data
+                if fail:
+                    raise self.exc()
+            else:
+                out, self.pending = self.pending, ""
+                if fail:
+                    self.data.append(out[: len(out) // 2])
+                    raise self.exc()
+                self.data.append(out)
+            return
+        if fail:
             if data:
                 self.data.append(data[: len(data) // 2])     # an interrupted write delivered a prefix
             raise self.exc()
@@ -29,7 +45,11 @@ def _renderable(n):
         def _get_render_size_(self): return Size(2, 2)
         def _render_(self, rd, ra):
             d = rd[Renderable]
-            return Frame(d.frame_offset, 1, d.size, "ab\ncd")
+            # each line carries a string command (as a graphics-protocol render output would)
+            return Frame(d.frame_offset, 1, d.size, "\x1b_Gq=1;AAAA\x1b\\ab\n\x1b_Gq=1;BBBB\x1b\\cd")
+        def _handle_interrupted_draw_(self, rd, ra, output):
+            output.write("\x1b\\")
+            output.flush()
         @classmethod
         def _finalize_render_data_(cls, rd):
             R.fin.append(id(rd)); super()._finalize_render_data_(rd)
@@ -43,10 +63,10 @@ def draw_faults(m, meta):
     master, slave = pty.openpty()
     out = []
     try:
-        for frames in (3, 1):
+        for frames, buffered in ((3, False), (1, False), (3, True), (1, True)):
             # faults inside draw()'s own clean-up (the final "\n", SHOW_CURSOR, flush) are excluded by the property
             r0_, _ = _renderable(frames)
-            st0 = Stream(slave)
+            st0 = Stream(slave, buffered=buffered)
             old = sys.stdout
             sys.stdout = st0
             try:
@@ -56,7 +76,7 @@ def draw_faults(m, meta):
             cleanup_from = st0.ops - 2
             for k in range(1, cleanup_from):
                 r, R = _renderable(frames)
-                st = Stream(slave, fail_at=k)
+                st = Stream(slave, fail_at=k, buffered=buffered)
                 before = termios.tcgetattr(slave)
                 old = sys.stdout
                 sys.stdout = st
@@ -86,8 +106,11 @@ def draw_faults(m, meta):
                     problems.append("animated draw propagated KeyboardInterrupt")
                 if frames == 1 and raised != "KeyboardInterrupt":
                     problems.append("still draw swallowed KeyboardInterrupt")
+                if _string_command_open(text + st.pending):
+                    problems.append("a string command of the render output is left open (the interrupt handler did not run)")
                 if problems:
-                    out.append({"frames": frames, "KeyboardInterrupt_at_stream_op": k, "problems": problems})
+                    out.append({"frames": frames, "stream": "buffered until flush()" if buffered else "unbuffered", "KeyboardInterrupt_at_stream_op": k,
+                                "operation": "flush()" if st.log[k - 1] is None else "write(%r)" % st.log[k - 1][:20], "problems": problems})
     finally:
         os.close(master); os.close(slave)
     return {"reproduced": bool(out), "input": "Renderable.draw(loops=1) with KeyboardInterrupt raised by the k-th stream operation", "observed": out[:6]}
